@@ -83,7 +83,9 @@ def run_sets(repo, sets, tier, seed):
             if o.get('failures'):
                 unit['obligations'][oid] = 'failed'
                 unit['status'] = 'failed'
-                for fcase in o['failures'][:20]:
+                # every retained failing case goes to the known-findings matcher (the set keeps the first 300 and then up to 25
+                # per class of case), so a new failure is not hidden behind many instances of a listed one
+                for fcase in o['failures']:
                     unit['failures'].append(dict(obligation=oid, function=o.get('function', ''), message=fcase.get('detail', '')[:600],
                                                  source=None, text='', rendered=fcase.get('detail', ''), case=fcase.get('case')))
             elif o.get('cases', 0) == 0:
